@@ -43,6 +43,22 @@ class BytesV(object):
         self.t = t
 
 
+_PIN = {}
+
+
+def tid(t):
+    """id of a z3 term, with the term pinned for the duration of the current
+    path: z3 recycles the ids of collected ASTs, so an id may only be used as
+    a dictionary key while the term is kept alive"""
+    i = t.get_id()
+    _PIN[i] = t
+    return i
+
+
+def unpin_all():
+    _PIN.clear()
+
+
 def is_sym(v):
     return isinstance(v, Sym)
 
